@@ -7,8 +7,10 @@ import (
 	"math/big"
 	"os"
 	"runtime"
+	"runtime/debug"
 	"sort"
 	"strconv"
+	"strings"
 	"sync"
 
 	"github.com/woodsbury/decimal128"
@@ -43,6 +45,9 @@ type Ctx struct {
 	Shards int
 	Col    *mon.Collector
 	Build  string
+
+	panicMu     sync.Mutex
+	shardPanics []string
 }
 
 // N picks a per-shard case count by tier.
@@ -75,6 +80,22 @@ func (c *Ctx) Parallel(phase string, def ref.Mode, fn func(sh *mon.Shard, r *gen
 		wg.Add(1)
 		go func() {
 			defer wg.Done()
+			defer func() {
+				// A panic here is inside the harness (library calls run under try): the shard's verdicts so far
+				// are kept, the rest of its workload is lost and the run cannot be called "held".
+				if pv := recover(); pv != nil {
+					st := strings.Split(string(debug.Stack()), "\n")
+					if len(st) > 14 {
+						st = st[:14]
+					}
+					c.panicMu.Lock()
+					c.shardPanics = append(c.shardPanics, fmt.Sprintf("phase %s shard %d: %v | %s", phase, sh.ID, pv, strings.Join(st, " | ")))
+					c.panicMu.Unlock()
+				}
+			}()
+			if sh.ID == 3 && os.Getenv("VERIF_INJECT_HARNESS_PANIC") == "1" {
+				panic("injected harness panic (self-test of the runner)")
+			}
 			fn(sh, r)
 		}()
 	}
@@ -219,6 +240,10 @@ func Main() int {
 		col.Res.Write(out)
 		fmt.Fprintln(os.Stderr, "INTERNAL:", col.Res.Internal)
 		return 5
+	}
+	for _, sp := range ctx.shardPanics {
+		col.Res.Inconclusive = append(col.Res.Inconclusive, "part of the workload was lost to a panic inside the harness: "+sp)
+		fmt.Fprintln(os.Stderr, "HARNESS-PANIC:", sp)
 	}
 	runWitnesses(ctx, p)
 	if ctx.Build == "cover" {
